@@ -218,6 +218,7 @@ def correspond(ctx):
         c.bump("prior=%s%s" % ("junk" if prior else "zero", "+perennial-continuation" if cont else ""))
     CC.evaluate(ctx, c, cs, "Cases_C13")
     soil_correspond(ctx, c)
+    rota_correspond(ctx, c)
     c.nontrivial = len(seen)
     c.dist["generated_variants_rejected_by_converter"] = conv_failed
     c.samples = ["%s %s" % (p[0], p[1]) for p in plan[:4] + plan[-3:]]
@@ -339,6 +340,121 @@ def soil_correspond(ctx, c):
     CC.evaluate(ctx, c, cs, "Cases_C13soil", fn="smismatches", casetype="scase",
                 extra_import="From Hermes Require Import SoilModel C13SoilCorr.", kind="soil-state", namer=_soil_name)
     _cache["soil_res"] = (plan, res)
+    return c
+
+
+# ------------------------------------------------------------------------------------------------
+# rotation reader: RotaReaderModel vs the real reader inside hermes.Input
+
+def _robs(o):
+    """observation term from an inputstate dump"""
+    if o is None or o.get("err") == "fatal":
+        return "RCrash", None
+    if "crop" not in o:
+        return ("RErr", None) if "not found" in (o.get("err") or "") else (None, "run failed before the first day: %s" % o.get("err"))
+    crops = o["crop"]
+    n = max([i for i, c_ in enumerate(crops) if c_] + [0])        # index of the entry behind the last one (crop SM)
+    bad = []
+    if crops[n] != "SM" or any(crops[n + 1:]):
+        bad.append("entry behind the last")
+    if o["ernte2"][:n] != o["ernte"][:n] or o["saat1"][n] != o["saat2"][n] or o["beginn"] != o["ernte"][0] or any(o["saat1"][:n]):
+        bad.append("ERNTE2/SAAT2/BEGINN are not the copies the model assumes")
+    z = o["saat"][:n] + o["ernte"][:n] + [o["itag"], o["saat1"][n]]
+    f = o["odu"][:n] + o["jn"][:n] + o["ertr"][:n]
+    term = "(ROk [%s] [%s] [%s]%%Z [%s])" % ("; ".join('"%s"' % x for x in crops[:n]), "; ".join('"%s"' % x for x in o["variety"][:n]),
+                                             "; ".join("(%d)" % x for x in z), "; ".join(CC.fl(x) for x in f))
+    return term, ("; ".join(bad) if bad else None)
+
+
+def _arow_term(r):
+    fld, crp, s, h, rex, yld, org, var, cmt = r
+    return '(mk_arow ["%s"; "%s"; "%s"; "%s"; "%s"; "%s"; "%s"; "%s"] %s)' % (fld, crp, s, h, rex, yld, var, cmt,
+                                                                           "None" if org is None else '(Some "%s")' % org)
+
+
+def _rota_name(pos):
+    return {77777: "model accepts, code rejects", 88888: "model rejects, code accepts", 70000: "error vs Fatal",
+            66661: "python txt rendering differs from render_rot_txt", 66662: "python csv rendering differs from render_rot_csv",
+            99997: "list length", 99998: "int list length", 99999: "float list length"}.get(
+        pos, "crop[%d]" % (pos - 20000) if 20000 <= pos < 30000 else "variety[%d]" % (pos - 30000) if pos >= 30000 else
+        "int#%d (saat.., ernte.., ITAG, SAAT1 behind the last)" % (pos - 10000) if pos >= 10000 else "float#%d (odu.., jn.., ertr..)" % pos)
+
+
+def rota_correspond(ctx, c):
+    env = F.setup(ctx)
+    rnd = random.Random(ctx.seed * 41 + 27)
+    plan, lines = [], []
+    D = datetime.date
+    nproj = 40 if ctx.thorough else 10
+    for k in range(nproj):
+        crops = rnd.choice([(("SM", ""), ("SOY", "000")), (("WW", ""), ("SM", "")), (("SOY", "ii"), ("OA", "")), (("ZR", "chrnew"), ("SW", ""))])
+        P = F.base_project(rnd, crops=crops, years=(1980, 1980 + rnd.randrange(2, 5)))
+        fmt = rnd.choice(F.DATEFMTS)
+        sep = rnd.choice(["", "", "."])
+        bad = None
+        if k % 5 == 3:        # malformed: dates not increasing / a cell that is no number / an unknown field / a blank line inside
+            bad = rnd.choice(["order", "number", "field", "blank"])
+            if bad == "order":
+                r = list(P.rot[-1]); r[2] = P.rot[-2][2]; P.rot[-1] = tuple(r)
+            elif bad == "number":
+                r = list(P.rot[1]); r[3] = "0x0"; P.rot[1] = tuple(r)
+        for kind in ("txt", "csv"):
+            nm = "ro%d%s" % (k, kind)
+            F.write_project(env, nm, P, datefmt=fmt, rot=kind, sep=sep)
+            path = os.path.join(env.ex, "project", nm, "crop_%s.%s" % (nm, kind))
+            data = open(path, "rb").read()
+            if bad == "blank":
+                ls = data.split(b"\n"); ls.insert(2, b""); data = b"\n".join(ls); open(path, "wb").write(data)
+            pkt = "NOFIELD" if bad == "field" else P.field
+            if bad == "field":
+                F_ = os.path.join(env.ex, "project", nm, "poly_%s.txt" % nm)
+                open(F_, "w").write(open(F_).read().replace(P.field.ljust(9), pkt.ljust(9)))
+            lines.append(F.line_for(nm, P))
+            plan.append(("load", "%s rotation %d (%s%s%s)" % (kind, k, fmt, " sep=." if sep else "", " malformed:" + bad if bad else ""),
+                         data, kind == "csv", F.DATEFMTS.index(fmt), pkt, len(lines) - 1))
+        if not bad:
+            rows = F.rotation_rows(P, fmt, sep)
+            plan.append(("render", "rotation %d" % k, (F.render_rotation(P, fmt, "txt", sep).encode(), F.render_rotation(P, fmt, "csv", sep).encode()),
+                         None, None, rows, None))
+    # shipped rotation files through the shipped projects
+    for proj, extra in (("ex1", "CropFileFormat=txt"), ("ex1", "CropFileFormat=csv")):
+        cfgp = os.path.join(env.ex, "project", proj, "config.yml")
+        cfg = open(cfgp, encoding="utf-8", errors="replace").read()
+        import re as _re
+        kind = "csv" if "csv" in extra or (not extra and _re.search(r"(?m)^CropFileFormat:\s*'?csv", cfg)) else "txt"
+        fm = _re.search(r"(?m)^Dateformat:\s*(\w+)", cfg).group(1)
+        path = os.path.join(env.ex, "project", proj, "crop_%s.%s" % (proj, kind))
+        if not os.path.exists(path):
+            continue
+        poly = open(os.path.join(env.ex, "project", proj, "poly_%s.txt" % proj), errors="replace").read().split("\n")
+        for row in poly[1:3]:
+            t = row.split()
+            if len(t) < 3:
+                continue
+            lines.append("project=%s WeatherFolder=historical soilId=%s fcode=109_120 plotNr=%s Altitude=73 Latitude=52.6732 poligonID=Z AutoIrrigation=0 %s"
+                         % (proj, "075" if proj != "myP" else "075", t[0], extra))
+            plan.append(("load", "shipped crop_%s.%s field %s" % (proj, kind, t[2]), open(path, "rb").read(), kind == "csv",
+                         F.DATEFMTS.index(fm), t[2], len(lines) - 1))
+    ist = input_states(ctx, env, lines)
+    cs = CC.CaseSet(per_shard=20)
+    skipped = 0
+    for kind, name, data, csv, fm, x, li in plan:
+        if kind == "render":
+            cs.add(lambda file, data=data, x=x: "RRender [%s] %d%%nat %d%%nat" % ("; ".join(_arow_term(r) for r in x), file(data[0]), file(data[1])),
+                   "renderers " + name)
+            continue
+        term, note = _robs(ist.get(li))
+        if term is None:
+            skipped += 1
+            c.notes.append("rotation case skipped: %s: %s" % (name, note))
+            continue
+        if note:
+            c.mismatches.append({"kind": "rotation-state", "case": name, "differs": [note]})
+        cs.add(lambda file, data=data, term=term: 'RLoad %d%%nat %s %d%%Z 60%%Z "%s" %s' % (file(data), CC.b(csv), fm, x, term), "rotation reader " + name)
+        c.bump("rotation=" + ("csv" if csv else "txt")); c.bump("rotation-result=" + term.split()[0].strip("("))
+    CC.evaluate(ctx, c, cs, "Cases_C13rota", fn="rmismatches", casetype="rcase",
+                extra_import="From Hermes Require Import SoilModel RotaReaderModel C13SoilCorr C13RotaCorr.", kind="rotation-state", namer=_rota_name)
+    c.dist["rotation_cases_skipped"] = skipped
     return c
 
 
@@ -490,7 +606,7 @@ def input_states(ctx, env, lines):
             f.write("%s resultfolder=IST/l%d\n" % (l, i))
     out, start = {}, 0
     while start < len(lines):
-        q = subprocess.run([vh, "inputstate", "-work", env.ex, "-lines", lf, "-from", str(start)], stdout=subprocess.PIPE,
+        q = subprocess.run([vh, "inputstate", "-work", env.ex, "-lines", lf, "-from", str(start), "-n", "64"], stdout=subprocess.PIPE,
                            stderr=subprocess.PIPE, text=True, timeout=1200, cwd=env.ex)
         for line in q.stdout.split("\n"):
             if line.startswith("{"):
